@@ -165,6 +165,28 @@ func runSelftest(fast bool) (int, error) {
 		}
 		fmt.Printf("selftest: corrupted trace rejected at line %d (%s)\n", line, cor.name)
 	}
+	if !fast {
+		// design level: with the known-finding exclusions lifted / the repaired deviation switched on,
+		// the implementation-shaped models must produce the counterexamples by themselves
+		for _, m := range [][3]string{
+			{"MC_Framing_gen.tla", "MC_Framing_K.cfg", "K1/K2 (header shadowing, terminator/escape conflation)"},
+			{"MC_Clean_gen.tla", "MC_Clean_K.cfg", "K6 (unrecognised headers)"},
+			{"MC_Config_gen.tla", "MC_Config_F1.cfg", "F1 (Config written by MatchStandaloneJSON)"},
+		} {
+			dir, err := specDir(sc, sc.Next("k"))
+			if err != nil {
+				return 2, err
+			}
+			res, err := runTLC(dir, m[0], m[1], 8, 10*time.Minute)
+			if err != nil {
+				return 2, err
+			}
+			if !res.Violation {
+				return 2, inconclusive("selftest: %s/%s no longer produces the counterexample for %s: the model is vacuous", m[0], m[1], m[2])
+			}
+			fmt.Printf("selftest: %s finds %s by itself (%s after %d states)\n", m[1], m[2], res.ViolatedBy, res.Distinct)
+		}
+	}
 	fmt.Println("selftest OK")
 	return 0, nil
 }
